@@ -1,7 +1,7 @@
 (* Property C08 - only statements, each closed by [exact]. *)
 From Coq Require Import NArith ZArith List Bool Floats Sorting.Sorted Permutation.
 Import ListNotations.
-Require Import UV.C08.Model UV.C08.Proofs UV.C08.Figures UV.C08.Open UV.C08.Order UV.C08.Checker UV.C08.OpenSpec UV.C08.SortChecker UV.C08.Merge UV.C08.Lost UV.C08.LostSpec UV.C08.Inherit UV.C08.SelfDiff UV.C08.Stdv UV.C08.StdvFacts.
+Require Import UV.C08.Model UV.C08.Proofs UV.C08.Figures UV.C08.Open UV.C08.Order UV.C08.Checker UV.C08.OpenSpec UV.C08.SortChecker UV.C08.Merge UV.C08.Lost UV.C08.LostSpec UV.C08.Inherit UV.C08.SelfDiff UV.C08.Stdv UV.C08.StdvFacts UV.C08.TaskMode.
 Local Open Scope N_scope.
 
 (* The accumulation automaton of fstack_account_time + report_update_node (uint64 arithmetic, clamp
@@ -155,6 +155,15 @@ Theorem C08_stdout_checker_accepts_model : forall m s f c, small_figures (report
             (stdout_model (report_keys m s f) (report_fields m f) (report c)) = true.
 Proof. exact (fun m s f c H => stdout_checker_accepts_model _ _ (report c) (report_names_sorted c) H). Qed.
 Print Assumptions C08_stdout_checker_accepts_model.
+
+(* report --task: for a good task (no frame of unknown address left open) the task's line shows the summed
+   duration of its top-level calls (Total = Self) and the number of counted calls. *)
+Theorem C08_task_line : forall max_stack tt,
+  good_task max_stack tt -> Forall (fun o => o_addr o <> 0) (tt_open tt) ->
+  sumN (map w_self (spec_task tt)) < M64 ->
+  task_line max_stack (trace_recs tt) = (top_time tt, N.of_nat (length (spec_task tt))).
+Proof. exact task_line_good. Qed.
+Print Assumptions C08_task_line.
 
 (* LOST markers.  Any record list whose depth fields agree with the nesting (walk: ENTRY at depth n, EXIT at
    n-1, nesting below max_stack; markers anywhere, any number in a row, also first - i.e. the dropped records
